@@ -1,5 +1,7 @@
 pub mod c09;
 pub mod c10;
+pub mod c12;
+pub mod c13;
 pub mod c19;
 pub mod conc;
 pub mod evict;
